@@ -309,9 +309,9 @@ func sbRun(t *testing.T, c sbCase, prop string) (info sbInfo, viol []sbViolation
 			os.Setenv(k, v)
 		}
 	}
-	setenv("OLLAMA_MAX_LOADED_MODELS", map[bool]string{true: fmt.Sprint(c.MaxRunners), false: ""}[c.MaxRunners > 0])
-	setenv("OLLAMA_NUM_PARALLEL", map[bool]string{true: fmt.Sprint(c.NumParallel), false: ""}[c.NumParallel > 0])
-	setenv("OLLAMA_MAX_QUEUE", fmt.Sprint(c.MaxQueue))
+	setenv("OLLAMA_MAX_LOADED_MODELS", map[bool]string{true: sbEnvNum(c.EnvStyle, c.MaxRunners), false: ""}[c.MaxRunners > 0])
+	setenv("OLLAMA_NUM_PARALLEL", map[bool]string{true: sbEnvNum(c.EnvStyle, c.NumParallel), false: ""}[c.NumParallel > 0])
+	setenv("OLLAMA_MAX_QUEUE", sbEnvNum(c.EnvStyle, c.MaxQueue))
 	setenv("OLLAMA_KEEP_ALIVE", sbKeepEnv[c.KeepAlive%len(sbKeepEnv)])
 	setenv("OLLAMA_SCHED_SPREAD", map[bool]string{true: "1", false: ""}[c.Layout == 2])
 	setenv("OLLAMA_GPU_OVERHEAD", "")
